@@ -152,8 +152,7 @@ impl<F: Float + SampleUniform + std::fmt::Debug, D: Hash + Copy, H: Hasher + Def
         //
         if self.nb_empty > 0 {
             // now we run densification if necessary
-            let res = self.densify();
-            assert!(res.is_ok());
+            self.densify()?;
         }
         //
         Ok(())
@@ -189,7 +188,7 @@ impl<F: Float + SampleUniform + std::fmt::Debug, D: Hash + Copy, H: Hasher + Def
             return;
         }
         let res = self.densify();
-        assert!(res.is_ok());
+        assert!(res.is_ok(), "end_sketch failed : {:?}", res);
     }
 
     // This method must be called before get_hsketch, get_hsketch_u32 or get_hsketch_u64
@@ -198,6 +197,10 @@ impl<F: Float + SampleUniform + std::fmt::Debug, D: Hash + Copy, H: Hasher + Def
     fn densify(&mut self) -> anyhow::Result<()> {
         // now we run densification
         let m: usize = self.hsketch.len();
+        if self.nb_empty >= m as i64 {
+            // nothing was sketched : there is no populated bin to copy from, searching one would never end
+            return Err(anyhow::anyhow!("densify : no data sketched"));
+        }
         let mut nbpass = 1u64;
         let inrange = Uniform::<usize>::new(0, m).unwrap();
         for k in 0..m {
@@ -367,8 +370,7 @@ impl<F: Float + SampleUniform + std::fmt::Debug, D: Hash + Copy, H: Hasher + Def
         //
         if self.nb_empty > 0 {
             // now we run densification if necessary
-            let res = self.densify();
-            assert!(res.is_ok());
+            self.densify()?;
         }
         log::debug!(
             "fastdensminhash::sketch_slice sketch size : {:?},  nb empy slots : {:?}",
@@ -385,6 +387,10 @@ impl<F: Float + SampleUniform + std::fmt::Debug, D: Hash + Copy, H: Hasher + Def
     fn densify(&mut self) -> anyhow::Result<()> {
         // now we run densification
         let m: usize = self.hsketch.len();
+        if self.nb_empty >= m as i64 {
+            // nothing was sketched : there is no populated bin to copy from, searching one would never end
+            return Err(anyhow::anyhow!("densify : no data sketched"));
+        }
         let unif_m = Uniform::<usize>::new(0, m).unwrap();
         let mut pass: u64 = 1;
         while self.nb_empty > 0 {
@@ -421,7 +427,7 @@ impl<F: Float + SampleUniform + std::fmt::Debug, D: Hash + Copy, H: Hasher + Def
             return;
         }
         let res = self.densify();
-        assert!(res.is_ok());
+        assert!(res.is_ok(), "end_sketch failed : {:?}", res);
     }
 } // end of impl RevOptDensMinHash
 
